@@ -95,6 +95,7 @@ type SpecFile struct {
 	FuncTypes  map[string]*Contract
 	Order      []string
 	GhostMaps  map[string]*Decl
+	Aliases    map[string]string
 }
 
 type PredDecl struct {
@@ -106,7 +107,7 @@ type PredDecl struct {
 
 func NewSpecFile() *SpecFile {
 	return &SpecFile{Contracts: map[string]*Contract{}, Preds: map[string]*PredDecl{}, SpecFns: map[string]*Decl{},
-		Properties: map[string]*PropertyDecl{}, Unsync: map[string]string{}, FuncTypes: map[string]*Contract{}, GhostMaps: map[string]*Decl{}}
+		Properties: map[string]*PropertyDecl{}, Unsync: map[string]string{}, FuncTypes: map[string]*Contract{}, GhostMaps: map[string]*Decl{}, Aliases: map[string]string{}}
 }
 
 // ---------- lexer ----------
@@ -539,6 +540,13 @@ func (sf *SpecFile) ParseText(path, text string) error {
 				}
 			}
 			sf.SpecFns[name] = &Decl{Name: name, Args: args, Res: strings.TrimSpace(rest[j+1:])}
+			cur = nil
+		case "alias":
+			parts := strings.SplitN(rest, "=", 2)
+			if len(parts) != 2 {
+				return errf("bad alias")
+			}
+			sf.Aliases[strings.TrimSpace(parts[0])] = strings.TrimSpace(parts[1])
 			cur = nil
 		case "ghostmap":
 			// ghostmap cancelled(U) Bool
